@@ -229,29 +229,53 @@ func VerifC17_SnapshotRestoreRoundTrip() {
 	})
 	verifrt.Assert(err == nil, "C17 later transaction succeeds")
 
-	f, err := os.Open(copyPath)
-	verifrt.Assert(err == nil, "C17 the snapshot file can be opened")
-	panicked, msg := verifrt.Catch(func() { db.RestoreFromReader(f) })
-	_ = f.Close()
-	verifrt.Settle()
-	verifrt.Logf("panic message (if any): %v", msg) // not part of the label: executor and native wording differ
-	verifrt.Assert(!panicked, "C17 restoring the snapshot does not fail")
+	restoreAndCheck := func(round int) {
+		f, err := os.Open(copyPath)
+		verifrt.Assert(err == nil, "C17 the snapshot file can be opened")
+		panicked, msg := verifrt.Catch(func() { db.RestoreFromReader(f) })
+		_ = f.Close()
+		verifrt.Settle()
+		verifrt.Logf("panic message (if any): %v", msg) // not part of the label: executor and native wording differ
+		verifrt.Assert(!panicked, "C17 restoring the snapshot does not fail")
 
-	env.view(func(tx *bbolt.Tx) {
-		verifrt.Assert(verifDumpEqual(stateA, verifDumpData(tx)), "C17 after the restore the logical content equals the state at snapshot time")
-		e, found, ferr := env.emp.FindById(tx, "a")
-		verifrt.Assert(ferr == nil && found && e.Name == nameA, "C17 the stores serve the snapshot state again")
-		_, found, _ = env.emp.FindById(tx, "b")
-		verifrt.Assert(!found, "C17 work committed after the snapshot is gone")
-	})
-	got, err := db.GetSnapshotId()
-	verifrt.Assert(err == nil && got != nil && *got == snapId, "C17 the restored database reports the snapshot id that Snapshot returned")
-	verifrt.Assert(restored == 1, "C17 restore listeners have fired once")
-	calls := 0
-	idF := func() (string, error) { calls++; return "fresh", nil }
-	id, err := db.GetTimelineId(TimelineModeDefault, idF)
-	verifrt.Assert(err == nil && id == "fresh" && calls == 1, "C17 after the restore the next timeline-id request returns a fresh id")
-	id, err = db.GetTimelineId(TimelineModeDefault, idF)
-	verifrt.Assert(err == nil && id == "fresh" && calls == 1, "C17 ... exactly once")
+		env.view(func(tx *bbolt.Tx) {
+			verifrt.Assert(verifDumpEqual(stateA, verifDumpData(tx)), "C17 after the restore the logical content equals the state at snapshot time")
+			e, found, ferr := env.emp.FindById(tx, "a")
+			verifrt.Assert(ferr == nil && found && e.Name == nameA, "C17 the stores serve the snapshot state again")
+			_, found, _ = env.emp.FindById(tx, "b")
+			verifrt.Assert(!found, "C17 work committed after the snapshot is gone")
+		})
+		got, err := db.GetSnapshotId()
+		verifrt.Assert(err == nil && got != nil && *got == snapId, "C17 the restored database reports the snapshot id that Snapshot returned")
+		verifrt.Assert(restored == round, "C17 restore listeners have fired once per restore")
+		calls := 0
+		fresh := "fresh"
+		if round == 2 {
+			fresh = "fresh2"
+		}
+		idF := func() (string, error) { calls++; return fresh, nil }
+		id, err := db.GetTimelineId(TimelineModeDefault, idF)
+		verifrt.Assert(err == nil && id == fresh && calls == 1, "C17 after the restore the next timeline-id request returns a fresh id")
+		id, err = db.GetTimelineId(TimelineModeDefault, idF)
+		verifrt.Assert(err == nil && id == fresh && calls == 1, "C17 ... exactly once")
+	}
+	restoreAndCheck(1)
+
+	// "restored over any subsequent state": also the state reached after an
+	// earlier restore of the same snapshot plus further committed work
+	if verifrt.Bool("restore.again") {
+		again := verifrt.Choose("later2", 3)
+		err = env.update(func(ctx MutateContext) error {
+			switch again {
+			case 1:
+				return env.emp.Create(ctx, &vEmp{Id: "b", Name: "N3"})
+			case 2:
+				return env.emp.DeleteById(ctx, "a")
+			}
+			return nil
+		})
+		verifrt.Assert(err == nil, "C17 transaction after the first restore succeeds")
+		restoreAndCheck(2)
+	}
 	_ = db.Close()
 }
